@@ -1102,7 +1102,13 @@ func (p *Parser) evaluateVarDefinition(ctx context) (Statement, error) {
 		if global {
 			storedName = buildPrefixedName(prefix, name)
 		}
-		variables = append(variables, NewVariable(storedName, specifiedType, global, isPublic(name)))
+		valueType := specifiedType
+
+		// A variable that is defined again (a, b := 1, 2 with an existing a) keeps its type.
+		if exists && specifiedType.DataType() == DATA_TYPE_UNKNOWN {
+			valueType = variableValueType
+		}
+		variables = append(variables, NewVariable(storedName, valueType, global, isPublic(name)))
 	}
 	values := []Expression{}
 
